@@ -26,10 +26,19 @@ class Baton:
         self.to_drv.release()
         self.to_srv.acquire()
 
+    dead = False          # the server loop has ended (shutdown, or an exception that escaped it: the tick events then report alive = 0)
+
     def drv_step(self, timeout=20):
+        if self.dead:
+            return
         self.to_srv.release()
-        if not self.to_drv.acquire(timeout=timeout):
-            raise RuntimeError("server thread did not hand the baton back")
+        waited = 0.0
+        while not self.to_drv.acquire(timeout=0.05):
+            waited += 0.05
+            if self.dead:
+                return
+            if waited >= timeout:
+                raise RuntimeError("server thread did not hand the baton back")
 
 
 class FakeCond:
@@ -93,7 +102,14 @@ class ServerWorld:
         self.echo = echo
         self.kick_tags = set()
         self.producer = {}         # datagram bytes -> id of the client that produced them (replays keep their producer)
-        self.goodbye = set()       # addresses whose client said goodbye / was kicked: their disconnect is not a silence time-out
+        self.everbye = set()       # every address that ever said goodbye / was kicked / was closed by the application (never forgotten)
+        everbye = self.everbye
+
+        class _Bye(set):
+            def add(s, a):
+                everbye.add(a)
+                set.add(s, a)
+        self.goodbye = _Bye()      # addresses whose client said goodbye / was kicked: their disconnect is not a silence time-out
         self.stopped_req = False
         self.handed = {}           # (connection object, message bytes) -> times handed to handle_message
         self.uniq = 0
@@ -178,7 +194,12 @@ class ServerWorld:
         self.ev.append(dict(ev="cfg", interval=int(interval * 1e4), conn_timeout=int(self.ctxt.connection_timeout * 1e4), temp_timeout=int(self.ctxt.temp_connection_timeout * 1e4),
                             keepalive=int(self.ctxt.keep_alive_interval * 1e4), msg_timeout=int(self.ctxt.outgoing_timeout * 1e4), tick=self.tick_us // 100,
                             blocked=[self.aid((ip, 0)) for ip in blocklist], echo_deadline=int(echo_deadline * 1e4)))
-        self.th = threading.Thread(target=self.srv.thread.run, daemon=True)
+        def _loop():
+            try:
+                self.srv.thread.run()
+            finally:
+                self.baton.dead = True
+        self.th = threading.Thread(target=_loop, daemon=True)
         self.th.start()
         self.baton.to_drv.acquire()
         self.stopped = False
@@ -410,19 +431,24 @@ class ServerWorld:
         st = cl.status().value
         if st != c["status"] or err:
             c["status"] = st
-            self.ev.append(dict(ev="cstat", now=self.now(), c=cid, a=self.aid(c["addr"]), status=st, err=err, cbs=len(c["cb"]), cbtrue=sum(c["cb"])))
+            # asked: the application (either side) closed this connection, the server is being shut down, or the link was cut by the environment
+            asked = int(c["addr"] in self.everbye or self.stopped_req or bool(c.get("leaving")) or bool(c["cut"]) or bool(c["deaf"]))
+            self.ev.append(dict(ev="cstat", now=self.now(), c=cid, a=self.aid(c["addr"]), status=st, err=err, cbs=len(c["cb"]), cbtrue=sum(c["cb"]), asked=asked))
 
     def tick(self, deliver=True, loss=0.0):
         """Advance one server interval: clients update, their datagrams reach datagramReceived, one server loop iteration runs."""
-        self.vt.us += self.tick_us
+        k = max(1, int(getattr(self, "client_substeps", 1)))      # a game client runs at its frame rate, whatever the server's tick is
         self.tickno += 1
-        for x in [x for x in self.delayed_out if x[0] <= self.tickno]:
-            for c in self.clients.values():
-                if c["addr"] == x[2] and not c["deaf"]:
-                    c["sock"].inbox.append(x[1])
-        self.delayed_out = [x for x in self.delayed_out if x[0] > self.tickno]
-        for cid in list(self.clients):
-            self.client_tick(cid)
+        for sub in range(k):
+            self.vt.us += self.tick_us // k + (self.tick_us % k if sub == k - 1 else 0)
+            if sub == 0:
+                for x in [x for x in self.delayed_out if x[0] <= self.tickno]:
+                    for c in self.clients.values():
+                        if c["addr"] == x[2] and not c["deaf"]:
+                            c["sock"].inbox.append(x[1])
+                self.delayed_out = [x for x in self.delayed_out if x[0] > self.tickno]
+            for cid in list(self.clients):
+                self.client_tick(cid)
         self.to_server += [x[1:] for x in self.delayed_in if x[0] <= self.tickno]
         self.delayed_in = [x for x in self.delayed_in if x[0] > self.tickno]
         pend = self.to_server
